@@ -27,6 +27,9 @@ PROPS = {
             {"driver": "load", "stage": "gram", "flavour": "asan"},
             {"driver": "load", "stage": "deep", "flavour": "asan", "shards": 8},
             {"driver": "fault", "stage": "load", "flavour": "asan"},
+            {"driver": "load", "stage": "hugebuf", "flavour": "plain-O2"},
+            {"driver": "load", "stage": "ctx", "flavour": "release-O3"},
+            {"driver": "load", "stage": "ctx", "flavour": "uchar-O2"},
         ],
     },
     "C05": {
@@ -45,12 +48,14 @@ PROPS = {
         "assumptions": TRUST,
         "stages": [
             {"driver": "load", "stage": "seq", "flavour": "asan"},
+            {"driver": "load", "stage": "hugebuf", "flavour": "plain-O2"},
         ],
     },
     "C08": {
         "level": "exploration",
         "assumptions": TRUST,
-        "stages": [{"driver": "stream", "stage": "", "flavour": "asan-full"}],
+        "stages": [{"driver": "stream", "stage": "", "flavour": "asan-full"},
+                   {"driver": "stream", "stage": "huge", "flavour": "plain-O2"}],
     },
     "C09": {
         "level": "exploration",
@@ -87,13 +92,15 @@ PROPS = {
         "assumptions": TRUST + ["ownership rules as documented in the headers (cbor_tag_set_item does not release the previous item: that reference passes to the client)"],
         "stages": [{"driver": "hist", "stage": "dfs", "flavour": "asan", "budget": {"quick": 5, "thorough": 5}, "budget2": {"quick": 4, "thorough": 4}},
                    {"driver": "hist", "stage": "dfs", "flavour": "asan", "budget": {"thorough": 6}, "budget2": {"thorough": 3}, "tiers": ("thorough",)},
-                   {"driver": "hist", "stage": "random", "flavour": "asan", "budget": {"quick": 100000, "thorough": 2000000}}],
+                   {"driver": "hist", "stage": "random", "flavour": "asan", "budget": {"quick": 100000, "thorough": 2000000}},
+                   {"driver": "hist", "stage": "wide", "flavour": "asan", "shards": 2}],
     },
     "C12": {
         "level": "exploration",
         "assumptions": TRUST,
         "stages": [{"driver": "hist", "stage": "seq", "flavour": "asan", "budget": {"quick": 4, "thorough": 5}},
                    {"driver": "hist", "stage": "random", "flavour": "asan", "budget": {"quick": 200000, "thorough": 3000000}},
+                   {"driver": "hist", "stage": "hugeidx", "flavour": "asan", "shards": 4},
                    {"driver": "hist", "stage": "growth", "flavour": "asan"}],
     },
     "C13": {
@@ -128,6 +135,9 @@ PROPS = {
         "stages": [{"driver": "utf8", "stage": "bytes", "flavour": "asan", "budget": {"quick": 3, "thorough": 3}},
                    {"driver": "utf8", "stage": "bytes", "flavour": "plain-O2", "budget": {"thorough": 4}, "budget2": {"thorough": 4}, "tiers": ("thorough",)},
                    {"driver": "utf8", "stage": "alpha", "flavour": "asan"},
+                   {"driver": "utf8", "stage": "bytes", "flavour": "uchar-O2", "budget": {"quick": 3, "thorough": 3}},
+                   {"driver": "utf8", "stage": "alpha", "flavour": "uchar-O2", "budget": {"quick": 6, "thorough": 8}},
+                   {"driver": "utf8", "stage": "bytes", "flavour": "release-O3", "budget": {"quick": 3, "thorough": 3}},
                    {"driver": "utf8", "stage": "faults", "flavour": "asan"}],
     },
     "C17": {
@@ -148,7 +158,10 @@ PROPS = {
         "assumptions": TRUST + ["stack budget per case: 64 KiB + 512 B x L; empty definite containers are never placed at the boundary (they never become open)"],
         "stages": [{"driver": "nest", "stage": "", "flavour": fl, "L": L, "shards": 8 if L >= 64 else 2, "tiers": tiers}
                    for L, tiers in ((1, ("quick", "thorough")), (2, ("thorough",)), (3, ("quick", "thorough")), (8, ("thorough",)), (64, ("thorough",)), (2048, ("quick", "thorough")))
-                   for fl in ("plain-O0", "plain-O2")],
+                   for fl in ("plain-O0", "plain-O2")] +
+                  # limits beyond 16 bits: a depth counter narrower than size_t must not wrap
+                  [{"driver": "nest", "stage": "", "flavour": "plain-O2", "L": 70000, "shards": 8, "tiers": ("quick", "thorough")},
+                   {"driver": "nest", "stage": "", "flavour": "plain-O0", "L": 70000, "shards": 8, "tiers": ("thorough",)}],
     },
     "C20": {
         "level": "exploration",
